@@ -213,9 +213,17 @@ inline bool plan_effect(Model const& M, ModelTraits const& T, Op const& op, Effe
 			MView v;
 			if(!model_view(M, T, op.db, op.b, op.cb, v) || v.D != D) return false;
 			if(op.db == D && op.b == op.a) return false;
-			if(op.kind == O_CTOR_RANGE && v.n[0] < 1) return false;
-			if(op.kind == O_CTOR_RANGE && v.count() == 0) return false;
-			set_dims(a, D, v.n);
+			bool empty_range = false;
+			if(op.kind == O_CTOR_RANGE && (v.n[0] < 1 || v.count() == 0)) {
+				// an empty iterator range (first == last): a whole empty array, or a view sliced to nothing; the result is an empty
+				// array (whose reported extents are left open, as for a default-constructed one) and nothing may be dereferenced
+				if(v.n[0] != 0 || T.static_arrays) return false;
+				for(int k = 1; k < v.D; ++k)
+					if(v.n[k] < 1 && M.at(op.db, op.b).count() != 0) return false;
+				empty_range = true;
+				var("empty-range");
+			}
+			if(!empty_range) set_dims(a, D, v.n);
 			a.v = gather(M.at(op.db, op.b), v);
 			if(op.kind == O_DECAY) {
 				if(op.var < 0 || op.var > 2) return false;
@@ -462,7 +470,10 @@ inline bool plan_effect(Model const& M, ModelTraits const& T, Op const& op, Effe
 		bool const  same = dims_equal(a0, D, op.x);
 		MArr&       a    = tgt(0, D, op.a);
 		e.elems          = std::max(a0.count(), prod(op.x, D));
-		if(same && a0.count() > 0) {
+		if(op.var < 0 || op.var > 1) return false;
+		bool const reindexed = op.var == 1;  // the array is re-indexed to base 1 first: old extents [1, 1+n), new extents [0, x)
+		if(reindexed && (op.kind == O_REEXTENT_MOVE || a0.count() == 0 || prod(op.x, D) == 0)) return false;
+		if(same && a0.count() > 0 && !reindexed) {
 			e.expect_no_alloc = e.expect_no_elem_events = e.expect_base_unchanged = true;
 			var("noop");
 			e.probe_id = P_REEXT_NOOP;
@@ -479,6 +490,7 @@ inline bool plan_effect(Model const& M, ModelTraits const& T, Op const& op, Effe
 		else if(grow && shrink) { var("mixed"); e.probe_id = P_REEXT_MIXED; }
 		else if(grow) { var("grow"); e.probe_id = P_REEXT_GROW; }
 		else { var("shrink"); e.probe_id = P_REEXT_SHRINK; }
+		if(reindexed) { var("reindexed"); e.probe_id = -1; }
 		i64 const fillv = op.kind == O_REEXTENT_FILL ? op.v : fresh_or_zero;
 		set_dims(a, D, op.x);
 		a.v.assign(static_cast<std::size_t>(newc), fillv);
@@ -488,8 +500,9 @@ inline bool plan_effect(Model const& M, ModelTraits const& T, Op const& op, Effe
 				bool inside = true;
 				long o      = 0;
 				for(int k = 0; k < D; ++k) {
-					if(idx[k] >= a0.n[k]) inside = false;
-					o = o * a0.n[k] + idx[k];
+					int const old = idx[k] - (reindexed ? 1 : 0);  // position of index idx[k] in the old extent
+					if(old < 0 || old >= a0.n[k]) inside = false;
+					o = o * a0.n[k] + old;
 				}
 				if(inside) a.v[static_cast<std::size_t>(i)] = a0.v[static_cast<std::size_t>(o)];
 				for(int k = D - 1; k >= 0; --k) {
